@@ -124,10 +124,11 @@ func c04IsPipeline(c *database.Command) bool {
 // c04LongLived: one Database object serving many searches in a row (a long-running process) and a CachedDatabase whose
 // command list is replaced by one of the same length.  Anything the engine remembers between searches - a verdict memo with
 // a generation counter, per-command flags computed once - must not let through what the CURRENT request excludes:
-//   (1) an entry is admitted under --all-platforms, then g searches for other words follow (g around every power of two up
-//       to 2^16: a counter of any narrow width wraps somewhere there), then the entry's own word is searched under a platform
-//       request that excludes it;
-//   (2) a pipeline-only search, UpdateDatabase with the same commands in reverse order, the same pipeline-only search.
+//
+//	(1) an entry is admitted under --all-platforms, then g searches for other words follow (g around every power of two up
+//	    to 2^16: a counter of any narrow width wraps somewhere there), then the entry's own word is searched under a platform
+//	    request that excludes it;
+//	(2) a pipeline-only search, UpdateDatabase with the same commands in reverse order, the same pipeline-only search.
 var c04LongLivedRuns int
 
 func c04LongLived(mon *Mon, cur *SearchRecord, host string) {
